@@ -65,13 +65,23 @@ def poison_hook(kind):
             ch.basic_publish("", q, json.dumps([1, 2]), props("poison-4"))
         elif kind == "nostatemachine":
             ch.basic_publish("", q, json.dumps({"data": {}, "context": {}}), props("poison-5"))
+        elif kind == "nonutf8":
+            ch.basic_publish("", q, json.dumps({"data": {}, "context": {}}).encode("utf-16"), props("poison-6"))
+        elif kind == "badbytes":
+            ch.basic_publish("", q, b"\xff\xfe\x00{", props("poison-7"))
+        elif kind == "empty":
+            ch.basic_publish("", q, b"", props("poison-8"))
+        elif kind == "instance-queue":
+            ch.basic_publish("", q + "-i1", "{not json", props("poison-9"))
+        elif kind == "reply-queue":
+            ch.basic_publish("", "asl_workflow_reply_to-i1", b"\xff\xfe", fakepika.BasicProperties(correlation_id="nobody"))
     return hook
 
 
 def run(ctx):
     n_cases = ctx.pick(200, 3000)
     n_random = ctx.pick(3, 12)
-    poisons = ["nonjson", "nocontext", "unknown-machine", "array", "nostatemachine"]
+    poisons = ["nonjson", "nocontext", "unknown-machine", "array", "nostatemachine", "nonutf8", "badbytes", "empty", "instance-queue", "reply-queue"]
     for k in range(n_cases):
         if not ctx.mine(k):
             continue
